@@ -121,6 +121,10 @@ func (r *c07Rig) requestOf(c *c07Case, kind string, arg int) (*z80.Interrupt, in
 	case "nmi":
 		return z80.NMIInterrupt(), 0, 0
 	case "im1":
+		if arg != 0 {
+			// a peripheral that drives a byte on the bus whatever the mode: mode 1 ignores it
+			return &z80.Interrupt{Type: z80.IMType, Data: []uint8{uint8(arg)}}, 1, 0
+		}
 		return z80.IM1Interrupt(), 1, 0
 	case "im2":
 		return z80.IM2Interrupt(uint8(arg)), 2, 0
@@ -398,7 +402,7 @@ func TestC07(t *testing.T) {
 	defer finish(t, col)
 	col.Rule = "grammar-generated register-transparent programs (ALU/load code, data-window accesses, PUSH/POP, subroutine calls, DJNZ loops, LDIR/LDDR/CPIR/CPDR/INIR/OTIR.., DI..EI sections, " +
 		"conditional jumps, final HALT; three layouts incl. code running through 0xFFFF->0x0000 and a stack wrapping below 0x0000) x every injection point k in 0..N+2 (enumerated per program) x " +
-		"{NMI, IM1, IM2 with drawn vector and I, IM0+RST p, IM0+CALL nn}, generated handlers (PUSH AF; ...; POP AF; EI; RETI / RETN); oracle = metamorphic: final registers, flags, IFF, HALT, " +
+		"{NMI, IM1 (half of the programs with a request that carries a bus byte), IM2 with drawn vector and I, IM0+RST p, IM0+CALL nn}, generated handlers (PUSH AF; ...; POP AF; EI; RETI / RETN); oracle = metamorphic: final registers, flags, IFF, HALT, " +
 		"memory outside the stack bytes below SP and port output equal the uninterrupted run, handler ran exactly once (or the request is still pending when never enabled), and the word pushed " +
 		"on acceptance is the PC of the first instruction not yet executed; six more injection points per kind on the bundled DumbMemory and / or with the host driving by Run after the request (end of the run compared); non-trivial = request accepted while the program is running; distinct by hash(program, k, kind)"
 	rig := &c07Rig{}
@@ -446,6 +450,10 @@ func TestC07(t *testing.T) {
 				c.Arg = vec
 			case "im0rst":
 				c.Arg = rst
+			case "im1":
+				if vec&1 == 1 {
+					c.Arg = []int{0xFF, 0x10, 0x00 + 1, vec}[vec>>1&3] // the request carries a bus byte (RST 38H, DJNZ, ...): ignored in mode 1
+				}
 			}
 			_, im, _ := rig.request(&c)
 			ref := rig.undisturbed(p, im)
